@@ -1,4 +1,5 @@
 import Driver.QueueAcc
+import Driver.AdderAcc
 /-!
 Generic run loop for trace acceptors.  Input: runs separated by `reset …` lines and closed by `end`.
 Output per run: `ACCEPT <run> steps=<n> <summary>` or `REJECT <run> line=<n> :: <line> :: <reason>`;
@@ -54,5 +55,12 @@ def queueAcceptor : Acceptor QueueAcc.AccSt where
   pc := fun st t => QueueAcc.pcName (QueueAcc.getL st t)
   summary := fun st => s!"steps={st.steps} n={st.g.n} abs={Garr.Queue.abs st.g} lps={st.lps.reverse.map (fun (t, o) => s!"{t}:{QueueAcc.obsStr o}")}"
   stuck := fun st => st.ls.filterMap (fun (t, l) => match l with | .idle => none | .idleIt _ => none | l => some s!"{t}:{QueueAcc.pcName l}")
+
+def adderAcceptor : Acceptor AdderAcc.AccSt where
+  init := AdderAcc.initSt
+  line := AdderAcc.processLine
+  pc := fun st t => AdderAcc.pcName (AdderAcc.getL st t)
+  summary := fun st => s!"steps={st.steps} applied={st.g.applied} base={st.g.base} ncell={st.g.ncell} narr={st.g.narr} tbl={st.g.tbl} lps={st.lps.length}"
+  stuck := fun st => st.ls.filterMap (fun (t, l) => match l with | .idle => none | l => some s!"{t}:{AdderAcc.pcName l}")
 
 end Driver
